@@ -142,9 +142,7 @@ func report(res *RunResult, repo, verif string, seed int, writeEvidence bool, wa
 			viols = append(viols, viol{o: o, fr: fr, why: fr.Err})
 			continue
 		}
-		if len(fr.Obligs) == 0 && !strings.Contains(strings.Join(fr.Notes, " "), "trusted") {
-			broken = append(broken, fmt.Sprintf("%s: no obligations generated", fr.Name))
-		}
+		// a function may legitimately generate no obligation (crash-freedom sweep over code without partial operations)
 		for _, o := range fr.Obligs {
 			solverS += o.Secs
 			if o.IsCover {
@@ -382,6 +380,9 @@ func runSelftest(repo, verif, prop string, verbose bool) int {
 			}
 		}
 		var failed []string
+		if os.Getenv("GOVC_SELFTEST_VERBOSE") == m.Name {
+			printHuman(res, true)
+		}
 		for _, fr := range res.Funcs {
 			if fr.Err != "" {
 				failed = append(failed, fr.Name+"/translate#0")
